@@ -9,8 +9,15 @@ The third-party serialisers (serde_json, csv, serde_arrow/parquet) are **paramet
 `ser : Rec → Line`, `de : Line → Option Rec`, `blank : Line → Bool`. Their round-trip law is a
 hypothesis of the theorems in `Props/C09.lean`, never an axiom.
 
-`Legacy.*` is `write_jsonl_par` as it was at the pinned commit (start index not clamped);
-the un-prefixed definitions follow the current code (after the `fix:` commit).
+`Legacy.*` is the code as it was at the pinned commit: `write_jsonl_par` with the start index not clamped,
+`write_csv_par` without `create_dir_all`; the un-prefixed definitions follow the current code (after the
+`fix:` commits).
+
+Third round: the Parquet batch / row-group arithmetic with failure outcomes (`pqWrite`, `readBatches`,
+`pqReadRange`, `pqSplit`, `pqSeq`, `runSeqP`, `runParP`), the directory around a writer (`Fs`, `writeParts`,
+`concatParts`, `parWriteJsonlFs`, `writeAt`, `createsParents`), the `PCollection` writer methods
+(`pcWriteCsvPar` with the planner's partition suggestion, `pcWriteJsonlPar`), the integer line codec the
+driver runs (`serInt` / `deInt`, `I64`), and the glob-or-literal dispatch of the path helpers (`readHelper`).
 -/
 namespace IB.Io
 
@@ -301,5 +308,254 @@ def sortPaths {β : Type} (files : List (PathC × β)) : List (PathC × β) :=
 def globRead {Line Rec : Type} (readFile : List Line → Option (List Rec))
     (files : List (PathC × List Line)) : Option (List Rec) :=
   ((sortPaths files).mapM fun f => readFile f.2).map List.flatten
+
+/-! ## Parquet: OUR row-group / batch arithmetic (`write_parquet_vec`, `read_parquet_vec`,
+`read_parquet_row_group_range`, `ParquetVecOps`) with failure outcomes
+
+`Row` is a stored (encoded) row, `Rec` a decoded record. The arrow/parquet encodings are parameters:
+`enc : Rec → Row` (serde_arrow `to_record_batch` + column encodings), `dec : List Row → Option (List Rec)`
+(`from_record_batch` of one batch; `none` = `Err`). What is OURS: the single batch handed to the writer, the
+row-group ranges, the `while let Some(batch) … out.append(&mut rows)` loops, the `.ok()?` plumbing of the
+`VecOps`, and the consumption by the runner. -/
+
+section parquetIO
+variable {Row Rec : Type}
+
+/-- `ArrowWriter` cuts the ONE batch that `write_parquet_vec` hands over into row groups of at most `maxRG`
+    rows (`WriterProperties::builder().build()`: 1 Mi rows); zero rows ⇒ zero row groups. -/
+def pqGroups (maxRG : Nat) (rows : List Row) : List (List Row) :=
+  chunksFuel (max maxRG 1) rows.length rows
+
+/-- `write_parquet_vec(path, data)`: the row groups of the written file -/
+def pqWrite (maxRG : Nat) (enc : Rec → Row) (data : List Rec) : List (List Row) :=
+  pqGroups maxRG (data.map enc)
+
+/-- the record-batch reader cuts the selected rows into consecutive batches of at most `b` rows
+    (`with_batch_size(64 * 1024)` in `read_parquet_vec`, the builder default 1024 in
+    `read_parquet_row_group_range`) -/
+def pqBatches (b : Nat) (rows : List Row) : List (List Row) :=
+  chunksFuel (max b 1) rows.length rows
+
+/-- `while let Some(batch) = reader.next().transpose()? { let mut rows = from_record_batch(&batch)?;
+    out.append(&mut rows) }` — first failing batch → `Err` -/
+def readBatches (dec : List Row → Option (List Rec)) : List (List Row) → Option (List Rec)
+  | [] => some []
+  | b :: bs =>
+    match dec b with
+    | none => none
+    | some rows => (readBatches dec bs).map (rows ++ ·)
+
+/-- the rows of row groups `[s, e)` in file order (`with_row_groups((s..e).collect())`) -/
+def groupRows (groups : List (List Row)) (s e : Nat) : List Row :=
+  ((groups.drop s).take (e - s)).flatten
+
+/-- `read_parquet_row_group_range(src, s, e)`; `opened = false`: `File::open` / the reader builder
+    fails at READ time (the file vanished or was replaced after the shards were built) -/
+def pqReadRange (opened : Bool) (b : Nat) (dec : List Row → Option (List Rec))
+    (groups : List (List Row)) (s e : Nat) : Option (List Rec) :=
+  if opened then readBatches dec (pqBatches b (groupRows groups s e)) else none
+
+/-- `read_parquet_vec(path)`: all row groups, batches of `b` (= 65 536) rows -/
+def pqReadAll (opened : Bool) (b : Nat) (dec : List Row → Option (List Rec))
+    (groups : List (List Row)) : Option (List Rec) :=
+  if opened then readBatches dec (pqBatches b groups.flatten) else none
+
+/-- `ParquetVecOps::split`: one partition per group range (ranges computed at BUILD time), `n` ignored;
+    `none` = some range failed (`.ok()?`) -/
+def pqSplit (opened : Bool) (b : Nat) (dec : List Row → Option (List Rec)) (groups : List (List Row))
+    (per : Nat) : Option (List (List Rec)) :=
+  (mkGroupRanges groups.length per).mapM fun r => pqReadRange opened b dec groups r.1 r.2
+
+/-- `ParquetVecOps::clone_any`: groups `0 .. last range end` (`map_or(0, ..)` when there is no range) -/
+def pqSeq (opened : Bool) (b : Nat) (dec : List Row → Option (List Rec)) (groups : List (List Row))
+    (per : Nat) : Option (List Rec) :=
+  pqReadRange opened b dec groups 0 (((mkGroupRanges groups.length per).getLast?.map (·.2)).getD 0)
+
+/-- `exec_seq` on a Parquet source -/
+def runSeqP (opened : Bool) (b : Nat) (dec : List Row → Option (List Rec)) (groups : List (List Row))
+    (per : Nat) : Outcome (List Rec) :=
+  match pqSeq opened b dec groups per with
+  | some v => .ok v
+  | none => .err
+
+/-- `exec_par` on a Parquet source: `split(..).unwrap_or_else(|| vec![clone_any(..).expect(..)])` -/
+def runParP (opened : Bool) (b : Nat) (dec : List Row → Option (List Rec)) (groups : List (List Row))
+    (per : Nat) : Outcome (List Rec) :=
+  match pqSplit opened b dec groups per with
+  | some parts => .ok parts.flatten
+  | none =>
+    match pqSeq opened b dec groups per with
+    | some v => .ok v
+    | none => .panic
+
+end parquetIO
+
+/-! ## The directory around a writer: truncation, part files, parent directories -/
+
+/-- a directory: path ↦ content (`none` = no such file) -/
+abbrev Fs := String → Option (List Char)
+
+/-- `File::create(p)` + write `c` + close: creates or TRUNCATES -/
+def fsCreate (fs : Fs) (p : String) (c : List Char) : Fs := fun q => if q = p then some c else fs q
+
+/-- `remove_file(p)` (result ignored) -/
+def fsRemove (fs : Fs) (p : String) : Fs := fun q => if q = p then none else fs q
+
+/-- `write_jsonl_vec(path, data)` / `write_csv_vec`: the target is created or truncated -/
+def writeFileFs (fs : Fs) (path : String) (bytes : List Char) : Fs := fsCreate fs path bytes
+
+section parfs
+variable {α : Type}
+
+/-- the `par_iter().try_for_each` of `write_jsonl_par`: EVERY shard (also an empty one) creates /
+    truncates its part file and writes its slice. The shards run concurrently on DISTINCT paths, so
+    the index order used here is one of the equivalent schedules. `none` = slice-index panic. -/
+def writeParts (ser : α → List Char) (part : Nat → String) (data : List α) :
+    List (Nat × Nat × Nat) → Fs → Option Fs
+  | [], fs => some fs
+  | b :: bs, fs =>
+    match slice? data b.2.1 b.2.2 with
+    | none => none
+    | some xs => writeParts ser part data bs (fsCreate fs (part b.1) (writeJsonl ser xs))
+
+/-- `for p in &shard_paths { copy(File::open(p)?, &mut out) }`; `none` = a part cannot be opened (`Err`) -/
+def concatParts (part : Nat → String) (fs : Fs) : List Nat → Option (List Char)
+  | [] => some []
+  | i :: is =>
+    match fs (part i) with
+    | none => none
+    | some c => (concatParts part fs is).map (c ++ ·)
+
+/-- `for p in shard_paths { let _ = remove_file(p); }` -/
+def removeParts (part : Nat → String) : List Nat → Fs → Fs
+  | [], fs => fs
+  | i :: is, fs => removeParts part is (fsRemove fs (part i))
+
+/-- number of part files `write_jsonl_par` creates, reads and removes -/
+def jsonlPartCount (n : Nat) (shards : Option Nat) (auto : Nat) : Nat :=
+  if n = 0 then 0 else shardCount shards auto n
+
+/-- `write_jsonl_par(path, data, shards)` as a transformation of the directory (plain extension; the
+    codec wrapper is C10's): `n = 0` → the target is created empty; else every part is created, the target is
+    created (truncated), the parts are appended to it in index order, the parts are removed.
+    `part i` = `path.with_extension("jsonl.part{i}")`. `none` = panic / `Err`. -/
+def parWriteJsonlFs (ser : α → List Char) (part : Nat → String) (path : String) (data : List α)
+    (shards : Option Nat) (auto : Nat) (fs : Fs) : Option Fs :=
+  let n := data.length
+  if n = 0 then some (fsCreate fs path [])
+  else
+    let sc := shardCount shards auto n
+    match writeParts ser part data (jsonlShardBounds n sc) fs with
+    | none => none
+    | some fs1 =>
+      let fs2 := fsCreate fs1 path []
+      match concatParts part fs2 (List.range sc) with
+      | none => none
+      | some out => some (removeParts part (List.range sc) (fsCreate fs2 path out))
+
+end parfs
+
+/-- `write_csv_par(path, ..)` as a transformation of the directory: the shard buffers live in memory,
+    the only file touched is the target, created (truncated) once -/
+def parWriteCsvFs (fs : Fs) (path : String) (bytes : List Char) : Fs := fsCreate fs path bytes
+
+/-- Outcome of a writer on a target whose parent directory may be missing: a writer that runs
+    `create_dir_all(parent)` first succeeds either way (the directory is assumed creatable), one that does
+    not fails at `File::create`. `write_jsonl_vec`, `write_csv_vec`, `write_jsonl_par`, `write_csv_par`
+    (since the `fix:` commit) create the parents; `write_parquet_vec` does not. -/
+def writeAt {β : Type} (createsParents parentExists : Bool) (result : β) : Option β :=
+  if createsParents || parentExists then some result else none
+
+
+/-- which writer runs `create_dir_all(parent)` before `File::create` (current code) -/
+def createsParents (writer : String) : Bool :=
+  writer == "write_jsonl_vec" || writer == "write_csv_vec" || writer == "write_jsonl_par" ||
+  writer == "write_csv_par" || writer == "pc_write_jsonl" || writer == "pc_write_csv" ||
+  writer == "pc_write_jsonl_par" || writer == "pc_write_csv_par"
+
+/-- pinned commit: `write_csv_par` (the free function) did not -/
+def Legacy.createsParents (writer : String) : Bool :=
+  writer != "write_csv_par" && IB.Io.createsParents writer
+
+/-! ## `PCollection::write_csv_par` / `write_jsonl_par` -/
+
+/-- `planner::suggest_partitions(Some(n))`: `n.div_ceil(64_000).clamp(hw, 8·hw)`, `hw = num_cpus.max(2)` -/
+def suggestParts (n hw : Nat) : Nat := clamp (divCeil n 64000) hw (8 * hw)
+
+/-- `PCollection::write_csv_par(path, shards, hdr)` = `collect_par(threads := shards, partitions := None)`
+    then `write_csv_vec`. `shards` is the rayon THREAD count (it sizes the global pool if no pool exists yet
+    and never enters the data path); the partition count is the planner's suggestion for an in-memory source. -/
+def pcWriteCsvPar {Line Rec : Type} (hdr : Bool) (header : Line) (ser : Rec → Line) (data : List Rec)
+    (_threads : Option Nat) (hw : Nat) : List Line :=
+  csvWrite hdr header ser (collectParVec data (suggestParts data.length hw))
+
+/-- `PCollection::write_jsonl_par(path, shards)` = `collect_seq` (the identity on an in-memory source) then
+    the free function -/
+def pcWriteJsonlPar {α : Type} (data : List α) (shards : Option Nat) (auto : Nat) : Option (List α) :=
+  parWriteJsonl data shards auto
+
+/-! ## the integer line codec the driver runs (`JSONLRD`, `WRJSONL`): serde_json on `i64` -/
+
+/-- decimal digits, most significant first (`itoa`) -/
+def serNat (n : Nat) : List Char :=
+  if n < 10 then [Char.ofNat (48 + n)] else serNat (n / 10) ++ [Char.ofNat (48 + n % 10)]
+termination_by n
+decreasing_by omega
+
+/-- `serde_json::to_writer(&i64)` -/
+def serInt (v : Int) : List Char :=
+  if v < 0 then '-' :: serNat v.natAbs else serNat v.natAbs
+
+def jsonWs (c : Char) : Bool := c == ' ' || c == '\t' || c == '\n' || c == '\r'
+
+def trimJsonWs (l : List Char) : List Char :=
+  ((l.dropWhile jsonWs).reverse.dropWhile jsonWs).reverse
+
+def parseDigits (ds : List Char) : Nat := ds.foldl (fun acc c => acc * 10 + (c.toNat - 48)) 0
+
+/-- `serde_json::from_str::<i64>`: optional JSON whitespace around a canonical JSON integer in the `i64`
+    range (no leading zeros, no `-0`, no `+`) -/
+def deInt (l : List Char) : Option Int :=
+  let t := trimJsonWs l
+  let (neg, ds) := match t with
+    | '-' :: r => (true, r)
+    | r => (false, r)
+  if ds.isEmpty || !ds.all Char.isDigit then none
+  else if ds.length > 1 && ds.head? == some '0' then none
+  else
+    let n := parseDigits ds
+    if neg && n == 0 then none
+    else
+      let v : Int := if neg then - (Int.ofNat n) else Int.ofNat n
+      if v < -9223372036854775808 || v > 9223372036854775807 then none else some v
+
+
+/-- the `i64` values -/
+def I64 : Type := { v : Int // -9223372036854775808 ≤ v ∧ v ≤ 9223372036854775807 }
+
+def serI64 (r : I64) : List Char := serInt r.val
+
+def deI64 (l : List Char) : Option I64 :=
+  match deInt l with
+  | none => none
+  | some v =>
+    if h : -9223372036854775808 ≤ v ∧ v ≤ 9223372036854775807 then some ⟨v, h⟩ else none
+
+/-! ## the path helpers `read_jsonl` / `read_csv` / `read_parquet_streaming`: glob or literal -/
+
+/-- `Regex::new(r"[*?\[]").is_match(path)` -/
+def isPattern (path : List Char) : Bool := path.any fun c => c == '*' || c == '?' || c == '['
+
+/-- `read_jsonl(p, path)` / `read_csv(p, path, hdr)`: a path with a glob metacharacter takes the glob branch
+    (`matched` = the files `expand_glob` finds; none at all → `bail!`), any other path is read as ONE file
+    (`literal` = its lines, `none` = cannot be opened). -/
+def readHelper {Line Rec : Type} (readFile : List Line → Option (List Rec)) (path : List Char)
+    (literal : Option (List Line)) (matched : List (PathC × List Line)) : Option (List Rec) :=
+  if isPattern path then
+    if matched.isEmpty then none else globRead readFile matched
+  else
+    match literal with
+    | none => none
+    | some ls => readFile ls
 
 end IB.Io
